@@ -154,6 +154,10 @@ CHECKS["C01"] = {
         handle_h("c01_k2_nd", 2, "[no dot, dispatched]", ("quick", "thorough")),
         handle_h("c01_k2_dn", 2, "[dispatched, no dot]", ("quick", "thorough")),
         handle_h("c01_k2_ed", 2, "[empty method, dispatched]", ("thorough",)),
+        handle_h("c01_k1_u", 1, "[unregistered interface]", ("thorough",)),
+        handle_h("c01_k2_ud", 2, "[unregistered interface, dispatched]", ("quick", "thorough")),
+        handle_h("c01_k2_du", 2, "[dispatched, unregistered interface]", ("thorough",)),
+        handle_h("c01_k3_dud", 3, "[dispatched, unregistered interface, dispatched]", ("thorough",)),
         handle_h("c01_k2_nn", 2, "[no dot, no dot]", ("thorough",)),
         handle_h("c01_k3_ddd", 3, "[dispatched x3]", ("quick", "thorough")),
         handle_h("c01_k2_err_first", 2, "[dispatched, dispatched], the first implementation returns Err (constant)", ("quick", "thorough")),
@@ -394,6 +398,9 @@ CHECKS["C02"] = {
         # the upgrade hand-over clause is decided by the C01 harnesses' P:c02.* assertions
         handle_h("c01_k2_dd", 2, "[dispatched, dispatched] (upgrade hand-over clause)", ("quick", "thorough")),
         handle_h("c01_k3_ddd", 3, "[dispatched x3] (upgrade hand-over clause)", ("thorough",)),
+        # 'the returned tail is exactly the bytes that follow the last complete message' on the library-answered path
+        handle_h("c01_k1_n", 1, "[method without dot] (tail clause)", ("quick", "thorough")),
+        handle_h("c01_k2_nd", 2, "[no dot, dispatched] (tail clause)", ("thorough",)),
     ],
     "assumptions": CHECKS["C01"]["assumptions"] + [
         "one cut point per harness instance, every structural position of the cut; k cuts follow by induction on the "
